@@ -6,7 +6,9 @@ ID = 'C01'
 ENGINE = 'E1 full product (writer level) + end-to-end lattice'
 RULE = ("writer-level: every vrl in the tier's list x every body length in W(cap) x {EFLR,IFLR} x output chunk "
         "{vrl, 65536}, plus all ordered pairs of a 19-value boundary window and 27 triples for small/special vrl; "
-        "label: sequence numbers x identifier lengths; a case is non-trivial when the write succeeded and the strict "
+        "label: sequence numbers x identifier lengths; end-to-end: four specifications (minimal, two frames, no-format, "
+        "rich with 13 object kinds) written through DLISFile.write at every vrl of the list x input chunk x output "
+        "chunk; a case is non-trivial when the write succeeded and the strict "
         "framing parser ran over the bytes; cases are distinct by construction")
 ASSUMPTIONS = ["strict reader mc/rp66.py (self-tested at start) is the trusted oracle",
                "bodies longer than 3*cap+14 are not enumerated (splitting loop is uniform beyond the 2nd iteration)"]
@@ -14,7 +16,7 @@ MIN_DISTINCT_OUTCOMES = 2
 
 
 def shards(tier):
-    return wl.wl_shards(tier) + [{'kind': 'label'}]
+    return wl.wl_shards(tier) + [{'kind': 'label'}] + wl.e2e_shards(tier)
 
 
 def bounds(tier):
@@ -25,6 +27,8 @@ def bounds(tier):
 def cases(shard, tier):
     if shard['kind'] == 'wl':
         yield from wl.wl_cases(shard, tier)
+    elif shard['kind'] == 'e2e':
+        yield from wl.e2e_cases(shard, tier)
     elif shard['kind'] == 'label':
         for seq in (1, 9, 10, 999, 9999, 10000):
             for n in (1, 2, 59, 60, 61):
@@ -34,6 +38,13 @@ def cases(shard, tier):
 
 
 def run_case(case):
+    if 'e2e' in case:
+        res = wl.run_e2e(case)
+        if 'exc' in res:
+            return Outcome('e2e-raised', [("C01:e2e:valid-spec-raised", f"{res['exc']} | {case}")], False, digest=res['exc'][:40])
+        bad = wl.check_layout(res['data'], case['vrl'], 1, 'E2E-SET')
+        viol = [(f"C01:e2e:{bad[0]}", f"{bad[1]} | {case}")] if bad else []
+        return Outcome(f"ok:e2e:{case['e2e']}", viol, True, digest=wl.digest_of(res))
     res = wl.run_writer(case)
     if 'exc' in res:
         cls = 'raised:' + res['exc'].split(':')[0]
